@@ -114,6 +114,23 @@ def run(ctx):
             if not np.allclose(np.asarray(r1).reshape(3), r3.numpy().reshape(3), atol=ttol * scale):
                 ctx.violation('NumPy rotate_point and torch rotate_points differ: %s vs %s' % (r1, r3.numpy()), rec,
                               {'what': 'np_vs_torch', 'mode': mname})
+        # a sweep loop: ONE mutable angles object (list, then ndarray) is updated in place between calls, as a caller stepping an axis would do;
+        # every call must use the angles the object holds NOW (expected value from the axis matrices rotmatx/y/z and the stated product)
+        for container in (list, np.array):
+            sweep = container([float(a) for a in ang])
+            for step_i, delta in enumerate((0.0, 17.5, -40.0, 17.5)):
+                sweep[step_i % 3] = sweep[step_i % 3] + delta
+                cur = [float(a) for a in sweep]
+                mx, my, mz = NT.rotmatx(cur[0]), NT.rotmaty(cur[1]), NT.rotmatz(cur[2])
+                wantR = {'XYZ': mz @ my @ mx, 'XZY': my @ mz @ mx, 'YXZ': mz @ mx @ my, 'ZXY': my @ mx @ mz, 'ZYX': mx @ my @ mz}[mname]
+                expect = wantR @ (np.array(pts[0]) - np.array(origin)) + np.array(origin) + np.array(offset)
+                got1 = np.asarray(NT.rotate_point(np.array(pts[0], dtype=np.float64), angles=sweep, mode=mname, origin=o_np, offset=f_np)[0]).reshape(3)
+                got2 = np.asarray(NT.rotate_points(np.array([pts[0]], dtype=np.float64), angles=sweep, mode=mname, origin=o_np, offset=f_np)).reshape(3)
+                if not (np.allclose(got1, expect, atol=1e-9 * scale) and np.allclose(got2, expect, atol=1e-9 * scale)):
+                    ctx.violation('NumPy rotate_point / rotate_points with ONE angles %s updated in place between calls: for the angles %s (mode %s) got %s / %s, '
+                                  'the stated product gives %s' % (container.__name__, cur, mname, got1.tolist(), got2.tolist(), expect.tolist()),
+                                  dict(rec, sweep=cur, container=container.__name__), {'what': 'angles_updated_in_place', 'api': 'numpy', 'mode': mname})
+                    break
         R = LT.get_rotation_matrix(tilt_angles=[torch.tensor([a], dtype=torch.float64) for a in ang], tilt_order=mname).numpy()
         cmp('get_rotation_matrix', R, nxt(), ttol, rec)
         mats = []
